@@ -134,7 +134,9 @@ class BatchProcessor:
         # Remove padding if needed
         if self.n_pad > 0:
             return results[: -self.n_pad]
-        return results
+        # Without padding the reshaped array is still sharded across devices and
+        # cannot be passed back to pmap as a broadcast argument; gather it first
+        return jnp.asarray(jax.device_get(results))
 
     @property
     def batch_shape(self) -> Tuple[int, int, int]:
